@@ -14,13 +14,16 @@
    the additional-information walk and the per-id decoders, the extension handlers 0x64 0x65 0x67
    0x70 with their base block and alarm identification, Header.decode / JTMessage.Decode on the
    unescaped buffer, and jt1078 Packet.Decode.
-   Not covered by a locality theorem: extension 0x66 (locality is refuted: C03_refuted_ext66_local
-   in Props/C03_location.v, the known finding); the unescape walk of jt808 (a pure function in
-   Model/Frame.v, not written against checked primitives: poisoned-tail runs only); handlers
-   embedded in T0x0200 through CustomAdditionContentFunc (oracle only, op extemb). *)
+   Third part (Model/Total_unesc.v, Proofs/Total_unesc_proofs.v): jt808's unescape walk at index
+   level (data[i], data[index:i-1], data[index:len-1], the fast path data[1:len-1]) is proved equal to
+   the structural unescape of Model/Frame.v, hence never panics, and with spare capacity it returns
+   the same for every tail: together with the header part the whole of JTMessage.Decode is covered.
+   Not covered by a locality theorem: extension 0x66 (locality is refuted: third conjunct of
+   C03_refuted_ext66 in Props/C03_location.v, the known finding); handlers embedded in T0x0200
+   through CustomAdditionContentFunc (oracle only, op extemb). *)
 From JT.Base Require Import Prelude.
-From JT.Model Require Import Location LocationExt Frame Jt1078 Total_base Total_msgs Total_codec Total_cap Total_cap2.
-From JT.Proofs Require Import Total_cap_proofs Total_cap2_proofs.
+From JT.Model Require Import Location LocationExt Frame Jt1078 Total_base Total_msgs Total_codec Total_cap Total_cap2 Total_unesc.
+From JT.Proofs Require Import Total_cap_proofs Total_cap2_proofs Total_unesc_proofs.
 
 (* the primitives.  Generic lemma: in range with cap = len => same bytes with any tail.  The
    spare-capacity primitives are the real thing: they DO return tail bytes when a slice expression
@@ -80,12 +83,17 @@ Theorem C03_ext_local : forall kind r id c tail, kind <> 102 ->
 Proof. exact ext_local. Qed.
 Print Assumptions C03_ext_local.
 
-(* jt808: the header / body slices of the unescaped buffer, whatever its spare capacity holds;
-   jt1078: Packet.Decode on any previous receiver *)
+(* jt808: (1) the unescape walk written at index level is the structural unescape of Model/Frame.v,
+   and with ANY bytes behind the slice it returns the same; (2) the header / body slices of the
+   unescaped buffer, whatever its spare capacity holds (on the fast path the buffer is
+   data[1:len-1]: closing delimiter + the caller's tail).  jt1078: Packet.Decode on any previous
+   receiver *)
 Theorem C03_frame_rtp_local :
+  (forall d, unescape_chk d = unescape d) /\
+  (forall d tail, unescape_cap d tail = unescape d) /\
   (forall d ptail, decode_chk_cap d ptail = decode_chk d) /\
   (forall r d tail, rtp_decode_cap r d tail = rtp_decode r d).
-Proof. split. exact frame_local. exact rtp_local. Qed.
+Proof. split. exact unescape_chk_eq. split. exact unescape_local. split. exact frame_local. exact rtp_local. Qed.
 Print Assumptions C03_frame_rtp_local.
 
 (* non-vacuity: the spare-capacity decoders accept what the cap = len decoders accept, with a
@@ -94,5 +102,9 @@ Example C03_local_accepts :
   is_ok (parse_msg_cap 2053 (fun x => x) 2 0 (VL []) [0; 1; 0; 0; 1; 0; 0; 0; 9] [255; 255]) = true /\
   is_ok (t0200_cap fresh_0200 (repeat 0 28 ++ [1; 4; 0; 0; 0; 7]) [1; 4; 9; 9; 9; 9]) = true /\
   is_ok (ext_cap 100 (fresh_ext 2) 100 (repeat 1 47) [170; 170]) = true /\
-  is_ok (rtp_decode_cap fresh_pkt (marker ++ [129; 98; 0; 1; 1; 2; 3; 4; 5; 6; 1; 48] ++ repeat 0 8 ++ [0; 1; 7]) [85]) = true.
+  is_ok (rtp_decode_cap fresh_pkt (marker ++ [129; 98; 0; 1; 1; 2; 3; 4; 5; 6; 1; 48] ++ repeat 0 8 ++ [0; 1; 7]) [85]) = true /\
+  (* a heartbeat frame whose check byte 0x7d is escaped: unescape walk + header decode behind tails *)
+  unescape_cap [126; 0; 2; 0; 0; 1; 35; 69; 103; 137; 1; 0; 247; 125; 1; 126] [1; 2; 3] =
+    Ok [0; 2; 0; 0; 1; 35; 69; 103; 137; 1; 0; 247; 125] /\
+  is_ok (decode_chk_cap [126; 0; 2; 0; 0; 1; 35; 69; 103; 137; 1; 0; 247; 125; 1; 126] [126; 9]) = true.
 Proof. vm_compute. repeat split; reflexivity. Qed.
